@@ -83,6 +83,25 @@ def gen_case(r, cid, cls, uni=False):
                 rpc_splits.append([i, hx(free.pop(r.randrange(len(free))))])
         return {"id": cid, "class": cls, "mode": "txn", "splits": [hx(x) for x in splits], "pre": pre, "ops": ops, "end": end,
                 "settle_ms": 2500, "rpc_splits": rpc_splits}
+    if cls == "bgetsplit":
+        # a region is split behind the client's back before a BatchGet of keys that are already flushed (only in the store
+        # tier) and span several regions: the buffer-tier read is re-split after EpochNotMatch and must stay a buffer-tier read
+        pool = KEYS[:10]
+        splits = sorted(set(r.sample(pool[2:8], r.randrange(1, 3))))
+        pre = [[hx(k), hx(b"old" + k)] for k in r.sample(pool, r.randrange(2, 6))]
+        ops = []
+        for k in r.sample(pool, r.randrange(5, 10)):
+            ops.append(["del", hx(k)] if r.random() < 0.25 else ["set", hx(k), hx(b"new" + k)])
+        ops.append(["flush"])
+        free = [k for k in pool[1:] if k not in splits]
+        for sk in r.sample(free, r.randrange(1, 3)):
+            ops.append(["split", hx(sk)])
+        ops.append(["bget", [hx(x) for x in pool]])
+        for k in r.sample(pool, 3):
+            ops.append(["get", hx(k)])
+        if r.random() < 0.5:
+            ops += [["set", hx(r.choice(pool)), hx(b"v2")], ["flush"], ["split", hx(r.choice([b"k0", b"k15", b"k55", b"k75"]))], ["bget", [hx(x) for x in pool]]]
+        return {"id": cid, "class": cls, "mode": "txn", "splits": [hx(x) for x in splits], "pre": pre, "ops": ops, "end": end, "settle_ms": 2500}
     if cls in ("dynresolve", "insert", "primary", "crash"):
         pool = KEYS[:10]
         splits = sorted(set(r.sample(pool[1:], r.randrange(0, 4))))
@@ -350,6 +369,9 @@ def audit(case, res, model, kind, v, stats):
                 if got != exp[1]:
                     fails.append(("C16_read_latest", "txn.%s(%s) returned %s, latest write / snapshot value is %s" % ("Get" if exp[0] == "v" else "BatchGet", op[1], got, exp[1])))
         if kind == "mock":
+            n += 1
+            if res.get("snapshot_reads_of_flushed"):
+                fails.append(("C16_read_latest/rpc-kind", "snapshot-tier Get/BatchGet at the transaction's start ts asked for keys it has already flushed (must be read through BufferBatchGet): %s" % sorted(set(res["snapshot_reads_of_flushed"]))))
             # keep-alive of the primary lock runs once the primary is flushed, and stops with the transaction
             first = ref["sent"][0] if ref["sent"] else None
             g = 0
@@ -490,21 +512,29 @@ def run(tier, seed, v, stats, robj):
         kinds = [robj["driver"].split("-")[-1]]
     else:
         n = {"quick": 420, "thorough": 1500}.get(tier, 420)
-        classes = ["single", "border", "rand", "grow", "probe", "regroup", "regroup", "dynresolve", "dynresolve", "insert", "primary", "crash"]
+        classes = ["single", "border", "rand", "grow", "probe", "regroup", "regroup", "dynresolve", "dynresolve", "insert", "primary", "crash", "bgetsplit", "bgetsplit"]
         cases = json.load(open(os.path.join(vlib.VERIF, "corpus", "C16", "directed_commit.json")))
         cases += [with_cancel(r, gen_case(r, "m%d-%d" % (seed, i), classes[i % len(classes)])) for i in range(n)]
         kinds = ["mock"] + (["uni"] if tier == "thorough" else [])
     if "mock" in kinds:
-        cf = os.path.join(d, "mock-%s-%d.json" % (tier, seed))
-        json.dump(cases, open(cf, "w"))
-        rc, out = vlib.sh([exe, cf], timeout=1200)
-        results = {}
-        for l in out.splitlines():
-            if l.startswith("{"):
-                try:
-                    o = json.loads(l); results[o["id"]] = o
-                except ValueError:
-                    pass
+        results, rc, out = {}, 0, ""
+        # a third of the cases run with config.EnableAsyncBatchGet (process-wide switch: separate invocation)
+        for i, c in enumerate(cases):
+            c.setdefault("async_batch_get", i % 3 == 2)
+        for tag, part in (("sync", [c for c in cases if not c["async_batch_get"]]), ("async", [c for c in cases if c["async_batch_get"]])):
+            if not part:
+                continue
+            cf = os.path.join(d, "mock-%s-%d-%s.json" % (tier, seed, tag))
+            json.dump(part, open(cf, "w"))
+            env = dict(os.environ); env["C16_ASYNC_BATCHGET"] = "1" if tag == "async" else "0"
+            rc1, out1 = vlib.sh([exe, cf], timeout=1200, env=env)
+            rc, out = rc or rc1, out + out1
+            for l in out1.splitlines():
+                if l.startswith("{"):
+                    try:
+                        o = json.loads(l); results[o["id"]] = o
+                    except ValueError:
+                        pass
         if rc != 0 or len(results) != len(cases):
             v.violation({"kind": "harness", "correspondence": "pipelinedtxn mock driver", "error": "rc=%d, %d/%d results: %s" % (rc, len(results), len(cases), out[-600:])}, has_input=False)
         else:
